@@ -1,4 +1,568 @@
+(* C06 — the theorems of Properties/C06.v. *)
 From Coq Require Import List NArith Bool Lia.
 From K.Model Require Import C06.
+From K.Proof Require Import C06_base C06_inv C06_crash C06_rec.
 Import ListNotations.
 Local Open Scope N_scope.
+#[local] Opaque dec.
+
+Lemma recover_key : forall c f s' x, recover c f = Some s' ->
+  mem s' x = fst (rec_view (c_ri c) (blobs f x)) /\ blobs (disk s') x = snd (rec_view (c_ri c) (blobs f x)).
+Proof.
+  intros c f s' x R. unfold recover in R. destruct (_ <=? c_cap c); [|discriminate]. injection R as <-.
+  cbn [mem disk blobs]. split; reflexivity.
+Qed.
+
+(* ---------------------------------------------------------------- reopen succeeds *)
+Theorem reopen_succeeds : forall c s o k, reach c s -> wf_op c s o = true ->
+  exists s', recover c (crash c s o k) = Some s'.
+Proof. intros c s o k R W. apply recover_some; [now apply reach_DI|exact W]. Qed.
+
+(* ---------------------------------------------------------------- how entries evolve across one operation *)
+Lemma complete_stays : forall c s o x e, DI c s -> wf_op c s o = true ->
+  mem s x = Some e -> e_complete e = true -> removes o x = false ->
+  exists e1, mem (post c s o) x = Some e1 /\ e_complete e1 = true.
+Proof.
+  intros c s o x e D W M C R. unfold post.
+  destruct (N.eq_dec x (target o)) as [E|E]; [|rewrite step_mem_other by exact E; eauto].
+  destruct (step_shape c s o D W) as
+    [Hs Hc | x0 sz sh Ho M0 V F Hsh Hc Hst | x0 e0 d ord Hr Ht M0 V L Hc Hst | x0 e0 d sh Ho M0 C0 V Hsh Hc Hst
+     | x0 e0 d body e' d1 Ht Hr Hmc M0 V Hk Hc Hm Hms Hsz Hco Hfin Hpre OK].
+  - rewrite Hs. eauto.
+  - subst o. cbn in E. subst x0. congruence.
+  - rewrite <- E in Ht. subst x0. congruence.
+  - subst o. cbn in E. subst x0. congruence.
+  - rewrite <- E in Ht. subst x0. rewrite Hm, N.eqb_refl. exists e'. split; [reflexivity|congruence].
+Qed.
+Lemma incomplete_stays : forall c s o x e, DI c s -> wf_op c s o = true ->
+  mem s x = Some e -> e_complete e = false -> removes o x = false -> o <> MarkComplete x ->
+  exists e1, mem (post c s o) x = Some e1 /\ e_complete e1 = false /\ e_size e1 = e_size e.
+Proof.
+  intros c s o x e D W M C R NM. unfold post.
+  destruct (N.eq_dec x (target o)) as [E|E]; [|rewrite step_mem_other by exact E; eauto].
+  destruct (step_shape c s o D W) as
+    [Hs Hc | x0 sz sh Ho M0 V F Hsh Hc Hst | x0 e0 d ord Hr Ht M0 V L Hc Hst | x0 e0 d sh Ho M0 C0 V Hsh Hc Hst
+     | x0 e0 d body e' d1 Ht Hr Hmc M0 V Hk Hc Hm Hms Hsz Hco Hfin Hpre OK].
+  - rewrite Hs. eauto.
+  - subst o. cbn in E. subst x0. congruence.
+  - rewrite <- E in Ht. subst x0. congruence.
+  - subst o. cbn in E. subst x0. congruence.
+  - rewrite <- E in Ht. subst x0. rewrite Hm, N.eqb_refl. exists e'. repeat split; congruence.
+Qed.
+(* a blob is complete after an operation only if it was before, or the operation is its MarkComplete *)
+Lemma complete_origin : forall c s o x e1, DI c s -> wf_op c s o = true ->
+  mem (post c s o) x = Some e1 -> e_complete e1 = true ->
+  (exists e, mem s x = Some e /\ e_complete e = true) \/
+  (o = MarkComplete x /\ exists e, mem s x = Some e /\ e_complete e = false).
+Proof.
+  intros c s o x e1 D W M C. unfold post in M.
+  destruct (N.eq_dec x (target o)) as [E|E]; [|rewrite step_mem_other in M by exact E; eauto].
+  destruct (step_shape c s o D W) as
+    [Hs Hc | x0 sz sh Ho M0 V F Hsh Hc Hst | x0 e0 d ord Hr Ht M0 V L Hc Hst | x0 e0 d sh Ho M0 C0 V Hsh Hc Hst
+     | x0 e0 d body e' d1 Ht Hr Hmc M0 V Hk Hc Hm Hms Hsz Hco Hfin Hpre OK].
+  - rewrite Hs in M. eauto.
+  - subst o. cbn in E. subst x0. rewrite Hst in M. cbn in M. unfold set_e in M. rewrite upd_eq in M.
+    injection M as <-. discriminate.
+  - rewrite <- E in Ht. subst x0. rewrite Hst in M. cbn in M. rewrite upd_eq in M. discriminate.
+  - subst o. cbn in E. subst x0. right. split; [reflexivity|eauto].
+  - rewrite <- E in Ht. subst x0. rewrite Hm, N.eqb_refl in M. injection M as <-. left. exists e0. split; congruence.
+Qed.
+(* a blob is listed after an operation only if it was before, or the operation is its Create *)
+Lemma listed_origin : forall c s o x, DI c s -> wf_op c s o = true ->
+  mem (post c s o) x <> None -> mem s x <> None \/ exists sz, o = Create x sz.
+Proof.
+  intros c s o x D W M. unfold post in M.
+  destruct (N.eq_dec x (target o)) as [E|E]; [|rewrite step_mem_other in M by exact E; eauto].
+  destruct (step_shape c s o D W) as
+    [Hs Hc | x0 sz sh Ho M0 V F Hsh Hc Hst | x0 e0 d ord Hr Ht M0 V L Hc Hst | x0 e0 d sh Ho M0 C0 V Hsh Hc Hst
+     | x0 e0 d body e' d1 Ht Hr Hmc M0 V Hk Hc Hm Hms Hsz Hco Hfin Hpre OK].
+  - rewrite Hs in M. eauto.
+  - subst o. cbn in E. subst x0. right. eauto.
+  - rewrite <- E in Ht. subst x0. left. congruence.
+  - subst o. cbn in E. subst x0. left. congruence.
+  - rewrite <- E in Ht. subst x0. left. congruence.
+Qed.
+
+Lemma deq_pub : forall d d', deq d d' -> pub d = pub d'.
+Proof. intros d d' [E1 [_ [E3 E4]]]. unfold pub. congruence. Qed.
+
+Lemma dir_of_complete : forall s x e d, mem s x = Some e -> e_complete e = true -> blobs (disk s) x = (Some d, None) ->
+  dir_of s x = Some d.
+Proof. intros s x e d M C V. unfold dir_of, area_of. rewrite M, C, V. reflexivity. Qed.
+Lemma dir_of_incomplete : forall s x e d, mem s x = Some e -> e_complete e = false -> blobs (disk s) x = (None, Some d) ->
+  dir_of s x = Some d.
+Proof. intros s x e d M C V. unfold dir_of, area_of. rewrite M, C, V. reflexivity. Qed.
+
+(* ---------------------------------------------------------------- completed blobs survive *)
+Theorem completed_survive : forall c s o k s' x e,
+  reach c s -> wf_op c s o = true ->
+  mem s x = Some e -> e_complete e = true -> removes o x = false ->
+  recover c (crash c s o k) = Some s' ->
+  exists d' b', dir_of s' x = Some d' /\ d_data d' = Some b' /\
+    mem s' x = Some (mkment (N.of_nat (length b')) true (d_ban d')) /\
+    (option_map pub (dir_of s x) = Some (pub d') \/ option_map pub (dir_of (post c s o) x) = Some (pub d')).
+Proof.
+  intros c s o k s' x e RS W M C NR R. pose proof (reach_DI c s RS) as D.
+  destruct (recover_key c _ s' x R) as [Hm Hb].
+  assert (PRE : forall w, veq w (blobs (disk s) x) -> blobs (crash c s o k) x = w ->
+     exists d' b', dir_of s' x = Some d' /\ d_data d' = Some b' /\
+       mem s' x = Some (mkment (N.of_nat (length b')) true (d_ban d')) /\ option_map pub (dir_of s x) = Some (pub d')).
+  { intros w E Hw. pose proof (di_keys c s D x) as K. rewrite M in K.
+    destruct (rec_complete c e _ w K C E) as [d [dw [b [Hv [-> [Ed [Hd [Hl [Hbn RV]]]]]]]]].
+    rewrite Hw, RV in Hm, Hb. cbn [fst snd] in Hm, Hb.
+    exists dw, b. repeat split; auto.
+    - eapply dir_of_complete; eauto.
+    - rewrite (dir_of_complete s x e d M C Hv). cbn. f_equal. symmetry. now apply deq_pub. }
+  destruct (N.eq_dec x (target o)) as [->|E].
+  - destruct (crash_class c s o k D W) as [E|E|e0 d d' Hr M0 V Hw S|sz d' Ho M0 Hw R0|e0 d d' Ho M0 C0 V Hw Hd Hbn Hmd].
+    + destruct (PRE _ E eq_refl) as [d' [b' [H1 [H2 [H3 H4]]]]]. exists d', b'. auto.
+    + pose proof (step_DI c s o D W) as D'. fold (post c s o) in D', E.
+      destruct (complete_stays c s o _ e D W M C NR) as [e1 [M1 C1]].
+      pose proof (di_keys c _ D' (target o)) as K. rewrite M1 in K.
+      destruct (rec_complete c e1 _ _ K C1 E) as [d [dw [b [Hv [Hw [Ed [Hd [Hl [Hbn RV]]]]]]]]].
+      rewrite RV in Hm, Hb. cbn [fst snd] in Hm, Hb.
+      exists dw, b. repeat split; auto.
+      * eapply dir_of_complete; eauto.
+      * right. rewrite (dir_of_complete _ _ e1 d M1 C1 Hv). cbn. f_equal. symmetry. now apply deq_pub.
+    + congruence.
+    + congruence.
+    + congruence.
+  - rewrite crash_other in Hm, Hb by exact E.
+    destruct (PRE _ (veq_refl _) (crash_other c s o k x E)) as [d' [b' [H1 [H2 [H3 H4]]]]]. exists d', b'. auto.
+Qed.
+
+(* ---------------------------------------------------------------- nothing incomplete is listed complete; nothing is invented *)
+Lemma rec_complete_inv : forall ri w e', fst (rec_view ri w) = Some e' -> e_complete e' = true ->
+  exists d b, fst w = Some d /\ d_data d = Some b.
+Proof.
+  intros ri [wc wi] e' H C. unfold rec_view in H. cbn [fst snd] in H.
+  destruct wc as [d|]; cbn [rec_comp] in H.
+  - destruct (d_data d) as [b|] eqn:Hd; [exists d, b; auto|]. cbn [fst] in H.
+    unfold rec_inc in H. destruct ri; [|discriminate]. destruct wi as [d2|]; [|discriminate].
+    destruct (d_data d2); [|discriminate]. destruct (d_sizef d2); [|discriminate]. destruct (undec _); [|discriminate].
+    cbn in H. injection H as <-. discriminate.
+  - cbn [fst] in H. unfold rec_inc in H. destruct ri; [|discriminate]. destruct wi as [d2|]; [|discriminate].
+    destruct (d_data d2); [|discriminate]. destruct (d_sizef d2); [|discriminate]. destruct (undec _); [|discriminate].
+    cbn in H. injection H as <-. discriminate.
+Qed.
+Lemma rec_some_inv : forall ri w, fst (rec_view ri w) <> None -> w <> (None, None).
+Proof. intros ri w H E. subst w. now rewrite rec_absent in H. Qed.
+
+Lemma di_complete_of_view : forall c e v w d, di_key c e v -> veq w v -> fst w = Some d ->
+  exists e0, e = Some e0 /\ e_complete e0 = true.
+Proof.
+  intros c [e0|] v w d K E F.
+  - exists e0. split; [reflexivity|]. destruct (e_complete e0) eqn:C; [reflexivity|].
+    destruct K as [d0 [Hv _]]. unfold area_of in Hv. rewrite C in Hv. cbn in Hv. subst v.
+    apply veq_inc in E. destruct E as [dw [-> _]]. discriminate.
+  - cbn in K. subst v. apply veq_none in E. subst w. discriminate.
+Qed.
+
+Theorem nothing_incomplete_complete : forall c s o k s' x e',
+  reach c s -> wf_op c s o = true -> recover c (crash c s o k) = Some s' ->
+  mem s' x = Some e' -> e_complete e' = true ->
+  (exists e, mem s x = Some e /\ e_complete e = true) \/
+  (o = MarkComplete x /\ exists e, mem s x = Some e /\ e_complete e = false).
+Proof.
+  intros c s o k s' x e' RS W R M' C'. pose proof (reach_DI c s RS) as D.
+  destruct (recover_key c _ s' x R) as [Hm _]. rewrite Hm in M'.
+  destruct (rec_complete_inv _ _ _ M' C') as [dw [bw [Fw Dw]]].
+  destruct (N.eq_dec x (target o)) as [->|E].
+  - destruct (crash_class c s o k D W) as [E|E|e0 d d' Hr M0 V Hw S|sz d' Ho M0 Hw R0|e0 d d' Ho M0 C0 V Hw Hd Hbn Hmd].
+    + left. destruct (di_complete_of_view c _ _ _ dw (di_keys c s D (target o)) E Fw) as [e0 [H1 H2]]. eauto.
+    + pose proof (step_DI c s o D W) as D'.
+      destruct (di_complete_of_view c _ _ _ dw (di_keys c _ D' (target o)) E Fw) as [e1 [H1 H2]].
+      now apply (complete_origin c s o (target o) e1 D W).
+    + left. exists e0. split; [exact M0|].
+      pose proof (di_keys c s D (target o)) as K. rewrite M0 in K. destruct K as [d0 [Hv _]].
+      rewrite Hv, vset_vset in Hw. rewrite Hw in Fw. unfold area_of in *. destruct (e_complete e0); [reflexivity|discriminate].
+    + rewrite Hw in Fw. discriminate.
+    + right. split; [exact Ho|eauto].
+  - rewrite crash_other in Fw by exact E. left.
+    destruct (di_complete_of_view c _ _ _ dw (di_keys c s D x) (veq_refl _) Fw) as [e0 [H1 H2]]. eauto.
+Qed.
+
+Theorem nothing_invented : forall c s o k s' x,
+  reach c s -> wf_op c s o = true -> recover c (crash c s o k) = Some s' ->
+  mem s' x <> None -> mem s x <> None \/ exists sz, o = Create x sz.
+Proof.
+  intros c s o k s' x RS W R M'. pose proof (reach_DI c s RS) as D.
+  destruct (recover_key c _ s' x R) as [Hm _]. rewrite Hm in M'. apply rec_some_inv in M'.
+  assert (PRE : forall w, veq w (blobs (disk s) x) -> w <> (None, None) -> mem s x <> None).
+  { intros w E N0 M0. pose proof (di_keys c s D x) as K. rewrite M0 in K. cbn in K. rewrite K in E.
+    apply veq_none in E. contradiction. }
+  destruct (N.eq_dec x (target o)) as [->|E].
+  - destruct (crash_class c s o k D W) as [E|E|e0 d d' Hr M0 V Hw S|sz d' Ho M0 Hw R0|e0 d d' Ho M0 C0 V Hw Hd Hbn Hmd].
+    + left. eapply PRE; eauto.
+    + pose proof (step_DI c s o D W) as D'. apply (listed_origin c s o _ D W).
+      intro M0. pose proof (di_keys c _ D' (target o)) as K. unfold post in M0. rewrite M0 in K. cbn in K. rewrite K in E.
+      apply veq_none in E. contradiction.
+    + left. congruence.
+    + right. eauto.
+    + left. congruence.
+  - rewrite crash_other in M' by exact E. left. eapply PRE; eauto using veq_refl.
+Qed.
+
+(* ---------------------------------------------------------------- incomplete blobs: restored with the reserved size, or dropped *)
+Theorem incomplete_restored_or_dropped : forall c s o k s' x e,
+  reach c s -> wf_op c s o = true ->
+  mem s x = Some e -> e_complete e = false -> removes o x = false -> o <> MarkComplete x ->
+  recover c (crash c s o k) = Some s' ->
+  if c_ri c
+  then exists d' b', dir_of s' x = Some d' /\ d_data d' = Some b' /\
+         mem s' x = Some (mkment (e_size e) false (d_ban d')) /\
+         (option_map pub (dir_of s x) = Some (pub d') \/ option_map pub (dir_of (post c s o) x) = Some (pub d'))
+  else mem s' x = None /\ blobs (disk s') x = (None, None).
+Proof.
+  intros c s o k s' x e RS W M C NR NM R. pose proof (reach_DI c s RS) as D.
+  destruct (recover_key c _ s' x R) as [Hm Hb].
+  assert (GEN : forall (s0 : state) e0 w, DI c s0 -> mem s0 x = Some e0 -> e_complete e0 = false -> e_size e0 = e_size e ->
+     veq w (blobs (disk s0) x) -> blobs (crash c s o k) x = w ->
+     if c_ri c
+     then exists d' b', dir_of s' x = Some d' /\ d_data d' = Some b' /\
+            mem s' x = Some (mkment (e_size e) false (d_ban d')) /\ option_map pub (dir_of s0 x) = Some (pub d')
+     else mem s' x = None /\ blobs (disk s') x = (None, None)).
+  { intros s0 e0 w D0 M0 C0 S0 E Hw. pose proof (di_keys c s0 D0 x) as K. rewrite M0 in K.
+    destruct (rec_incomplete c e0 _ w K C0 E) as [d [dw [b [Hv [-> [Ed [Hd [Hl [Hbn RV]]]]]]]]].
+    rewrite Hw, RV in Hm, Hb. destruct (c_ri c); cbn [fst snd] in Hm, Hb; [|auto].
+    exists dw, b. rewrite <- S0. repeat split; auto.
+    - eapply (dir_of_incomplete s' x); eauto.
+    - rewrite (dir_of_incomplete s0 x e0 d M0 C0 Hv). cbn. f_equal. symmetry. now apply deq_pub. }
+  destruct (N.eq_dec x (target o)) as [->|E].
+  - destruct (crash_class c s o k D W) as [E|E|e0 d d' Hr M0 V Hw S|sz d' Ho M0 Hw R0|e0 d d' Ho M0 C0 V Hw Hd Hbn Hmd].
+    + pose proof (GEN s e _ D M C eq_refl E eq_refl) as G. destruct (c_ri c); [|exact G].
+      destruct G as [d' [b' [H1 [H2 [H3 H4]]]]]. exists d', b'. auto.
+    + pose proof (step_DI c s o D W) as D'. fold (post c s o) in D', E.
+      destruct (incomplete_stays c s o _ e D W M C NR NM) as [e1 [M1 [C1 S1]]].
+      pose proof (GEN (post c s o) e1 _ D' M1 C1 S1 E eq_refl) as G. destruct (c_ri c); [|exact G].
+      destruct G as [d' [b' [H1 [H2 [H3 H4]]]]]. exists d', b'. auto.
+    + congruence.
+    + congruence.
+    + congruence.
+  - pose proof (GEN s e _ D M C eq_refl (veq_refl _) (crash_other c s o k x E)) as G. destruct (c_ri c); [|exact G].
+    destruct G as [d' [b' [H1 [H2 [H3 H4]]]]]. exists d', b'. auto.
+Qed.
+
+(* a Create interrupted by the crash: the blob is absent, or restored with exactly the size it asked for *)
+Theorem inflight_create : forall c s k s' x sz,
+  reach c s -> wf_op c s (Create x sz) = true -> mem s x = None ->
+  recover c (crash c s (Create x sz) k) = Some s' ->
+  (mem s' x = None /\ blobs (disk s') x = (None, None)) \/
+  (c_ri c = true /\ mem s' x = Some (mkment sz false false)).
+Proof.
+  intros c s k s' x sz RS W M R. pose proof (reach_DI c s RS) as D.
+  destruct (recover_key c _ s' x R) as [Hm Hb].
+  destruct (crash_class c s _ k D W) as [E|E|e0 d d' Hr M0 V Hw S|sz0 d' Ho M0 Hw R0|e0 d d' Ho M0 C0 V Hw Hd Hbn Hmd];
+    cbn [target] in *.
+  - left. pose proof (di_keys c s D x) as K. rewrite M in K. cbn in K. rewrite K in E. apply veq_none in E.
+    rewrite E, rec_absent in Hm, Hb. auto.
+  - pose proof (step_DI c s _ D W) as D'.
+    destruct (step_shape c s _ D W) as
+      [Hs Hc | x0 sz1 sh Ho M1 V F Hsh Hc Hst | x0 e1 d ord Hr Ht M1 V L Hc Hst | x0 e1 d sh Ho M1 C1 V Hsh Hc Hst
+       | x0 e1 d body e' d1 Ht Hr Hmc M1 V Hk Hc Hm1 Hms Hsz Hco Hfin Hpre OK].
+    + rewrite Hs in E. left. pose proof (di_keys c s D x) as K. rewrite M in K. cbn in K. rewrite K in E. apply veq_none in E.
+      rewrite E, rec_absent in Hm, Hb. auto.
+    + injection Ho as <- <-.
+      assert (M1' : mem (st_of (step c s (Create x sz))) x = Some (mkment sz false false)).
+      { rewrite Hst. cbn. unfold set_e. apply upd_eq. }
+      pose proof (di_keys c _ D' x) as K. rewrite M1' in K.
+      destruct (rec_incomplete c _ _ _ K eq_refl E) as [d [dw [b [Hv [Hw [Ed [Hd [Hl [Hbn RV]]]]]]]]].
+      rewrite RV in Hm, Hb. destruct (c_ri c); cbn [fst snd] in Hm, Hb; [right|left; auto].
+      split; [reflexivity|]. rewrite Hm. cbn in Hbn. now rewrite Hbn.
+    + cbn in Ht. subst x0. congruence.
+    + discriminate.
+    + cbn in Ht. subst x0. congruence.
+  - cbn in Hr. discriminate.
+  - left. rewrite Hw in Hm, Hb. unfold rec_view in Hm, Hb. cbn [fst snd rec_comp] in Hm, Hb. rewrite R0 in Hm, Hb. auto.
+  - discriminate.
+Qed.
+
+(* ---------------------------------------------------------------- MarkComplete interrupted by the crash *)
+Definition as_incomplete (c : cfg) (s s' : state) (x : N) (e : ment) : Prop :=
+  if c_ri c
+  then exists d' b', dir_of s' x = Some d' /\ d_data d' = Some b' /\
+         mem s' x = Some (mkment (e_size e) false (d_ban d')) /\ option_map pub (dir_of s x) = Some (pub d')
+  else mem s' x = None /\ blobs (disk s') x = (None, None).
+
+Lemma recovered_incomplete : forall c s f s' x e w, DI c s -> mem s x = Some e -> e_complete e = false ->
+  recover c f = Some s' -> blobs f x = w -> veq w (blobs (disk s) x) -> as_incomplete c s s' x e.
+Proof.
+  intros c s f s' x e w D M C R Hw E. destruct (recover_key c _ s' x R) as [Hm Hb].
+  pose proof (di_keys c s D x) as K. rewrite M in K.
+  destruct (rec_incomplete c e _ w K C E) as [d [dw [b [Hv [-> [Ed [Hd [Hl [Hbn RV]]]]]]]]].
+  rewrite Hw, RV in Hm, Hb. unfold as_incomplete. destruct (c_ri c); cbn [fst snd] in Hm, Hb; [|auto].
+  exists dw, b. repeat split; auto.
+  - eapply (dir_of_incomplete s' x); eauto.
+  - rewrite (dir_of_incomplete s x e d M C Hv). cbn. f_equal. symmetry. now apply deq_pub.
+Qed.
+
+Theorem inflight_complete : forall c s k s' x e,
+  reach c s -> wf_op c s (MarkComplete x) = true -> mem s x = Some e -> e_complete e = false ->
+  recover c (crash c s (MarkComplete x) k) = Some s' ->
+  as_incomplete c s s' x e \/
+  exists d0 d' b, dir_of s x = Some d0 /\ dir_of s' x = Some d' /\ d_data d0 = Some b /\ d_data d' = Some b /\
+    mem s' x = Some (mkment (N.of_nat (length b)) true (d_ban d')) /\ d_ban d' = d_ban d0 /\
+    (forall sfx, aget sfx (d_md d') = aget sfx (d_md d0) \/ (N.even sfx = true /\ aget sfx (d_md d') = None)).
+Proof.
+  intros c s k s' x e RS W M C R. pose proof (reach_DI c s RS) as D.
+  destruct (recover_key c _ s' x R) as [Hm Hb].
+  assert (MID : forall d d', blobs (disk s) x = (None, Some d) -> blobs (crash c s (MarkComplete x) k) x = (Some d', None) ->
+     d_data d' = d_data d -> d_ban d' = d_ban d ->
+     (forall sfx, aget sfx (d_md d') = aget sfx (d_md d) \/ (N.even sfx = true /\ aget sfx (d_md d') = None)) ->
+     exists d0 d' b, dir_of s x = Some d0 /\ dir_of s' x = Some d' /\ d_data d0 = Some b /\ d_data d' = Some b /\
+       mem s' x = Some (mkment (N.of_nat (length b)) true (d_ban d')) /\ d_ban d' = d_ban d0 /\
+       (forall sfx, aget sfx (d_md d') = aget sfx (d_md d0) \/ (N.even sfx = true /\ aget sfx (d_md d') = None))).
+  { intros d d' V Hw Hd Hbn Hmd.
+    pose proof (di_keys c s D x) as K. rewrite M in K. destruct K as [d0 [Hv [b [Hd0 _]]]].
+    unfold area_of in Hv. rewrite C in Hv. cbn in Hv. rewrite V in Hv. injection Hv as <-.
+    rewrite Hw in Hm, Hb. unfold rec_view in Hm, Hb. cbn [fst snd rec_comp] in Hm, Hb.
+    rewrite Hd, Hd0, rec_inc_none in Hm, Hb. cbn [fst snd] in Hm, Hb.
+    exists d, d', b. repeat split; auto; try congruence.
+    - eapply dir_of_incomplete; eauto.
+    - eapply (dir_of_complete s' x); eauto. }
+  destruct (crash_class c s _ k D W) as [E|E|e0 d d' Hr M0 V Hw S|sz0 d' Ho M0 Hw R0|e0 d d' Ho M0 C0 V Hw Hd Hbn Hmd];
+    cbn [target] in *.
+  - left. eapply recovered_incomplete; eauto.
+  - destruct (step_shape c s _ D W) as
+      [Hs Hc | x0 sz1 sh Ho M1 V F Hsh Hc Hst | x0 e1 d ord Hr Ht M1 V L Hc Hst | x0 e1 d sh Ho M1 C1 V Hsh Hc Hst
+       | x0 e1 d body e' d1 Ht Hr Hmc M1 V Hk Hc Hm1 Hms Hsz Hco Hfin Hpre OK].
+    + rewrite Hs in E. left. eapply recovered_incomplete; eauto.
+    + discriminate.
+    + cbn in Hr. discriminate.
+    + injection Ho as <-. right.
+      assert (Kb : konly x (CRenDir x :: map (fun sfx => CUnlink AComp x (FMd sfx)) (immovables c d)))
+        by (constructor; [reflexivity|apply konly_map_unlink]).
+      assert (PV : blobs (disk (st_of (step c s (MarkComplete x)))) x = (Some (rm_mds (immovables c d) d), None)).
+      { rewrite step_disk, Hc, (blobs_exec_target x sh _) by assumption. rewrite V, kexec_cons. unfold kapply. cbn [kstep snd fst].
+        apply kexec_unlink_mds. }
+      rewrite PV in E. apply veq_comp in E. destruct E as [dw [Hw [E1 [E2 [E3 E4]]]]].
+      destruct (rm_mds_spec (immovables c d) d) as [R1 [R2 [R3 R4]]].
+      apply (MID d dw V Hw); try congruence.
+      intros sfx. rewrite E4. destruct (R4 sfx) as [H|[H1 H2]]; [now left|right]. split; [|exact H2].
+      now apply (immovables_even c d).
+    + exfalso. now apply (Hmc x).
+  - cbn in Hr. discriminate.
+  - discriminate.
+  - right. now apply (MID d d').
+Qed.
+
+(* ---------------------------------------------------------------- Delete / eviction interrupted by the crash *)
+Lemma deq_dsub : forall d' d, deq d' d -> dsub d' d.
+Proof.
+  intros d' d [E1 [E2 [E3 E4]]]. split; [now left|]. split; [now left|]. split; [congruence|].
+  intros sfx v. now rewrite E4.
+Qed.
+
+Lemma rec_rm : forall c e d d', dir_ok c e d -> dsub d' d ->
+  let w := vset (area_of e) (Some d') (None, None) in
+  rec_view (c_ri c) w = (None, (None, None)) \/
+  exists b, d_data d = Some b /\ d_data d' = Some b /\
+    rec_view (c_ri c) w = (Some (mkment (if e_complete e then N.of_nat (length b) else e_size e) (e_complete e) (d_ban d')), w).
+Proof.
+  intros c e d d' [b [Hd [Hl [Hb Hs]]]] [S1 [S2 [S3 S4]]]. unfold area_of.
+  destruct (e_complete e) eqn:C; cbn [vset fst snd]; cbv zeta.
+  - unfold rec_view. cbn [fst snd rec_comp]. rewrite rec_inc_none.
+    destruct S1 as [S1|S1]; rewrite S1, ?Hd; cbn [fst snd]; [right|now left].
+    exists b. repeat split; auto; congruence.
+  - unfold rec_view. cbn [fst snd rec_comp]. destruct (c_ri c) eqn:RI; cbn [rec_inc]; [|now left].
+    destruct (Hs eq_refl eq_refl) as [sb [T1 T2]].
+    destruct S1 as [S1|S1]; rewrite S1, ?Hd; [|now left].
+    destruct S2 as [S2|S2]; rewrite S2, ?T1, ?T2; [|now left].
+    right. exists b. repeat split; auto; congruence.
+Qed.
+
+Theorem interrupted_removal : forall c s o k s' x e,
+  reach c s -> wf_op c s o = true -> mem s x = Some e -> removes o x = true ->
+  recover c (crash c s o k) = Some s' ->
+  (mem s' x = None /\ blobs (disk s') x = (None, None)) \/
+  exists d0 d' b, dir_of s x = Some d0 /\ dir_of s' x = Some d' /\ d_data d0 = Some b /\ d_data d' = Some b /\
+    mem s' x = Some (mkment (if e_complete e then N.of_nat (length b) else e_size e) (e_complete e) (d_ban d')) /\
+    (d_ban d' = true -> d_ban d0 = true) /\
+    (forall sfx v, aget sfx (d_md d') = Some v -> aget sfx (d_md d0) = Some v).
+Proof.
+  intros c s o k s' x e RS W M Hrm R. pose proof (reach_DI c s RS) as D.
+  assert (Tx : x = target o) by (destruct o; cbn in Hrm; try discriminate; apply N.eqb_eq in Hrm; now subst).
+  subst x. destruct (recover_key c _ s' (target o) R) as [Hm Hb].
+  pose proof (di_keys c s D (target o)) as K. rewrite M in K. destruct K as [d0 [Hv OK]].
+  assert (Hdir : dir_of s (target o) = Some d0) by (unfold dir_of; rewrite M, Hv; apply vget_vset).
+  assert (SUB : forall d', dsub d' d0 -> blobs (crash c s o k) (target o) = vset (area_of e) (Some d') (None, None) ->
+     (mem s' (target o) = None /\ blobs (disk s') (target o) = (None, None)) \/
+     exists d0 d' b, dir_of s (target o) = Some d0 /\ dir_of s' (target o) = Some d' /\ d_data d0 = Some b /\ d_data d' = Some b /\
+       mem s' (target o) = Some (mkment (if e_complete e then N.of_nat (length b) else e_size e) (e_complete e) (d_ban d')) /\
+       (d_ban d' = true -> d_ban d0 = true) /\
+       (forall sfx v, aget sfx (d_md d') = Some v -> aget sfx (d_md d0) = Some v)).
+  { intros d' S Hw. rewrite Hw in Hm, Hb. destruct (rec_rm c e d0 d' OK S) as [RV|[b [B1 [B2 RV]]]]; rewrite RV in Hm, Hb; cbn [fst snd] in Hm, Hb.
+    - now left.
+    - right. exists d0, d', b. destruct S as [_ [_ [S3 S4]]]. repeat split; auto.
+      unfold dir_of. rewrite Hm, Hb. unfold area_of. cbn [e_complete]. apply vget_vset. }
+  destruct (crash_class c s o k D W) as [E|E|e0 d d' Hr M0 V Hw S|sz0 d' Ho M0 Hw R0|e0 d d' Ho M0 C0 V Hw Hd Hbn Hmd].
+  - (* nothing removed yet *)
+    rewrite Hv in E.
+    assert (exists dw, blobs (crash c s o k) (target o) = vset (area_of e) (Some dw) (None, None) /\ deq dw d0) as [dw [Hw Ed]].
+    { destruct (area_of e); cbn [vset fst snd] in *; [apply veq_comp in E|apply veq_inc in E]; destruct E as [dw [-> Ed]]; eauto. }
+    apply (SUB dw); [now apply deq_dsub|exact Hw].
+  - (* removal complete *)
+    destruct (step_shape c s o D W) as
+      [Hs Hc | x0 sz1 sh Ho M1 V F Hsh Hc Hst | x0 e1 d ord Hr Ht M1 V L Hc Hst | x0 e1 d sh Ho M1 C1 V Hsh Hc Hst
+       | x0 e1 d body e' d1 Ht Hr Hmc M1 V Hk Hc Hm1 Hms Hsz Hco Hfin Hpre OK1].
+    + rewrite Hs, Hv in E.
+      assert (exists dw, blobs (crash c s o k) (target o) = vset (area_of e) (Some dw) (None, None) /\ deq dw d0) as [dw [Hw Ed]].
+      { destruct (area_of e); cbn [vset fst snd] in *; [apply veq_comp in E|apply veq_inc in E]; destruct E as [dw [-> Ed]]; eauto. }
+      apply (SUB dw); [now apply deq_dsub|exact Hw].
+    + subst o. cbn in Hrm. discriminate.
+    + subst x0. left. pose proof (step_DI c s o D W) as D'.
+      pose proof (di_keys c _ D' (target o)) as K'. rewrite Hst in K' at 1. cbn [mem] in K'. rewrite upd_eq in K'. cbn in K'.
+      rewrite K' in E. apply veq_none in E. rewrite E, rec_absent in Hm, Hb. auto.
+    + subst o. cbn in Hrm. discriminate.
+    + subst x0. congruence.
+  - (* part of the directory removed *)
+    rewrite M in M0. injection M0 as <-. rewrite Hv, vget_vset in V. injection V as <-.
+    rewrite Hv, vset_vset in Hw. now apply (SUB d').
+  - rewrite Ho in Hrm. cbn in Hrm. discriminate.
+  - rewrite Ho in Hrm. cbn in Hrm. discriminate.
+Qed.
+
+(* ---------------------------------------------------------------- every key is reusable *)
+Lemma wf_of_ok : forall c s o, out_of (step c s o) = OOk ->
+  (match o with WriteAt _ _ _ | SetMd _ _ _ | DelMd _ _ | WriteAtMd _ _ _ _ => False | _ => True end) -> wf_op c s o = true.
+Proof. intros c s o H K. unfold wf_op. rewrite H. destruct o; try contradiction; reflexivity. Qed.
+
+Lemma reuse_tail : forall c s1 x sz, DI c s1 -> mem s1 x = None -> msize s1 + sz <= c_cap c ->
+  is_ok (out_of (step c s1 (Create x sz)))
+  && is_ok (out_of (step c (st_of (step c s1 (Create x sz))) (MarkComplete x)))
+  && match mem (st_of (step c (st_of (step c s1 (Create x sz))) (MarkComplete x))) x with
+     | Some e => e_complete e | None => false end = true.
+Proof.
+  intros c s1 x sz D1 M1 F1.
+  destruct (step_create_eq c s1 x sz D1 M1 F1) as [cs E2].
+  assert (W2 : wf_op c s1 (Create x sz) = true) by (apply wf_of_ok; [now rewrite E2|exact I]).
+  pose proof (step_DI c s1 _ D1 W2) as D2. rewrite E2 in D2 |- *. cbn [st_of out_of fst snd is_ok] in *.
+  set (s2 := mkst (set_e (mem s1) x (mkment sz false false)) (msize s1 + sz) (exec cs (disk s1))) in *.
+  assert (M2 : mem s2 x = Some (mkment sz false false)) by (unfold s2, set_e; cbn; apply upd_eq).
+  destruct (step_mc_eq c s2 x _ D2 M2 eq_refl) as [cs3 E3]. rewrite E3. cbn [st_of out_of fst snd is_ok mem].
+  unfold set_e. rewrite upd_eq. reflexivity.
+Qed.
+
+Theorem keys_reusable : forall c s x sz ord,
+  reach c s ->
+  (mem s x <> None -> legal_order ord (dir_of s x) = true) ->
+  (msize s - size_of (mem s x)) + sz <= c_cap c ->
+  reuse c s x sz ord = true.
+Proof.
+  intros c s x sz ord RS HL HC. pose proof (reach_DI c s RS) as D. unfold reuse.
+  destruct (mem s x) as [e|] eqn:M.
+  - pose proof (di_keys c s D x) as K. rewrite M in K. apply di_vget in K. destruct K as [d [V [OK Hv]]].
+    assert (L : legal_order ord (Some d) = true).
+    { rewrite <- V. unfold dir_of in HL. rewrite M in HL. apply HL. discriminate. }
+    pose proof (step_delete_eq c s x ord e d D M V L) as E.
+    assert (W : wf_op c s (Delete x ord) = true) by (apply wf_of_ok; [now rewrite E|exact I]).
+    pose proof (step_DI c s _ D W) as D1. rewrite E in D1 |- *. cbn [st_of out_of fst snd is_ok andb] in *.
+    apply reuse_tail; [exact D1| |]; cbn [mem msize]; [apply upd_eq|]. cbn [size_of] in HC. exact HC.
+  - cbn [fst snd andb]. apply reuse_tail; auto. cbn [size_of] in HC. now rewrite N.sub_0_r in HC.
+Qed.
+
+(* ---------------------------------------------------------------- size accounting, memory <-> disk *)
+Theorem size_is_sum : forall c s, reach c s ->
+  msize s = sum_sizes (mem s) (dom (disk s)) /\ NoDup (dom (disk s)) /\
+  (forall x, mem s x <> None -> In x (dom (disk s))) /\ msize s <= c_cap c.
+Proof.
+  intros c s RS. pose proof (reach_DI c s RS) as D. repeat split.
+  - apply (di_sum c s D).
+  - apply (di_nodup c s D).
+  - intros x. now apply (di_support c s x D).
+  - apply (di_cap c s D).
+Qed.
+
+(* in every reachable state the disk holds exactly the directories of the listed blobs: nothing is
+   left over for unknown keys, every listed blob has its data file and its ban flag on disk *)
+Theorem memory_matches_disk : forall c s x, reach c s ->
+  match mem s x with
+  | None => blobs (disk s) x = (None, None)
+  | Some e => exists d b, blobs (disk s) x = vset (area_of e) (Some d) (None, None) /\ dir_of s x = Some d /\
+                          d_data d = Some b /\ N.of_nat (length b) <= e_size e /\ d_ban d = e_banned e
+  end.
+Proof.
+  intros c s x RS. pose proof (di_keys c s (reach_DI c s RS) x) as K. unfold dir_of.
+  destruct (mem s x) as [e|]; [|exact K].
+  destruct K as [d [Hv [b [Hd [Hl [Hb _]]]]]]. exists d, b. rewrite Hv. repeat split; auto. apply vget_vset.
+Qed.
+
+(* after recovery a complete blob's accounted size is the length of its bytes, an incomplete one's
+   the size decoded from its sidecar *)
+Theorem recovered_sizes : forall c f s' x e, recover c f = Some s' -> mem s' x = Some e ->
+  msize s' = sum_sizes (mem s') (dom (disk s')) /\
+  exists d, dir_of s' x = Some d /\
+    if e_complete e then exists b, d_data d = Some b /\ e_size e = N.of_nat (length b)
+    else exists sb, d_sizef d = Some sb /\ undec sb = Some (e_size e).
+Proof.
+  intros c f s' x e R M. destruct (recover_key c f s' x R) as [Hm Hb]. split.
+  { unfold recover in R. destruct (_ <=? c_cap c); [|discriminate]. injection R as <-. reflexivity. }
+  rewrite Hm in M. unfold dir_of. rewrite Hm, M, Hb. clear Hm Hb R.
+  destruct (blobs f x) as [wc wi]. unfold rec_view in *. cbn [fst snd] in *.
+  destruct wc as [dc|]; cbn [rec_comp] in *.
+  - destruct (d_data dc) as [b|] eqn:Hd; cbn [fst snd] in *.
+    + injection M as <-. cbn. exists dc. split; [reflexivity|]. eauto.
+    + unfold rec_inc in *. destruct (c_ri c); [|discriminate]. destruct wi as [di|]; [|discriminate].
+      destruct (d_data di); [|discriminate]. destruct (d_sizef di) as [sb|] eqn:Hs; [|discriminate].
+      destruct (undec sb) eqn:U; [|discriminate]. cbn in M. injection M as <-. cbn. exists di. split; [reflexivity|]. eauto.
+  - cbn [fst snd] in *. unfold rec_inc in *. destruct (c_ri c); [|discriminate]. destruct wi as [di|]; [|discriminate].
+    destruct (d_data di); [|discriminate]. destruct (d_sizef di) as [sb|] eqn:Hs; [|discriminate].
+    destruct (undec sb) eqn:U; [|discriminate]. cbn in M. injection M as <-. cbn. exists di. split; [reflexivity|]. eauto.
+Qed.
+
+(* ---------------------------------------------------------------- histories; the recovery before the fixes *)
+Lemma reach_after : forall c ops s, reach c s -> wf_all c s ops = true -> reach c (after c s ops).
+Proof.
+  intros c ops. induction ops as [|o t IH]; intros s R W; [exact R|].
+  cbn in W. apply andb_true_iff in W. destruct W as [W1 W2]. cbn. apply IH; [now apply reach_step|exact W2].
+Qed.
+
+Theorem keys_reusable_after_crash : forall c s o k s' x sz ord,
+  reach c s -> wf_op c s o = true -> recover c (crash c s o k) = Some s' ->
+  (mem s' x <> None -> legal_order ord (dir_of s' x) = true) ->
+  (msize s' - size_of (mem s' x)) + sz <= c_cap c ->
+  reuse c s' x sz ord = true.
+Proof. intros c s o k s' x sz ord RS W R. apply keys_reusable. eapply reach_crash; eauto. Qed.
+
+Definition cfg_w (ri : bool) : cfg := mkcfg ri 1000 3 [(0, [])].
+
+(* crash between create and write of the `_size` sidecar: the pinned code's reopen fails *)
+Theorem empty_size_refuted :
+  exists c s o k, reach c s /\ wf_op c s o = true /\ recover_old c (crash c s o k) = None.
+Proof.
+  exists (cfg_w true), init, (Create 0 5), 4%nat. split; [constructor|]. split; vm_compute; reflexivity.
+Qed.
+(* crash between create of the data file and create of `_size`: the entry is skipped but its
+   directory stays, and the key can no longer be created *)
+Theorem leftover_dir_refuted :
+  exists c s o k s' x, reach c s /\ wf_op c s o = true /\ recover_old c (crash c s o k) = Some s' /\
+    mem s' x = None /\ reuse c s' x 1 [] = false.
+Proof.
+  exists (cfg_w true), init, (Create 0 5), 3%nat.
+  eexists. exists 0. split; [constructor|]. split; [vm_compute; reflexivity|].
+  split; [vm_compute; reflexivity|]. split; vm_compute; reflexivity.
+Qed.
+(* interrupted Delete of a complete blob (data file unlinked first): the half-removed directory is
+   skipped but stays, and MarkComplete of the re-created key fails (rename onto a non-empty directory) *)
+Definition hist_w : list op :=
+  [Create 0 3; WriteAt 0 0 [97; 98; 99]; SetMd 0 1 [109]; Ban 0; MarkComplete 0].
+Theorem leftover_complete_dir_refuted :
+  exists c s o k s' x, reach c s /\ wf_op c s o = true /\ recover_old c (crash c s o k) = Some s' /\
+    mem s' x = None /\ is_ok (out_of (step c s' (Create x 1))) = true /\
+    out_of (step c (st_of (step c s' (Create x 1))) (MarkComplete x)) = OErr.
+Proof.
+  exists (cfg_w false), (after (cfg_w false) init hist_w), (Delete 0 [FData; FMd 1; FBan]), 1%nat.
+  eexists. exists 0. split; [apply reach_after; [constructor|vm_compute; reflexivity]|].
+  split; [vm_compute; reflexivity|]. split; [vm_compute; reflexivity|].
+  split; [vm_compute; reflexivity|]. split; vm_compute; reflexivity.
+Qed.
+(* the same crash points on the fixed recovery *)
+Lemma witnesses_fixed :
+  (exists s', recover (cfg_w true) (crash (cfg_w true) init (Create 0 5) 4) = Some s' /\ mem s' 0 = None
+              /\ reuse (cfg_w true) s' 0 1 [] = true) /\
+  (exists s', recover (cfg_w true) (crash (cfg_w true) init (Create 0 5) 3) = Some s' /\ reuse (cfg_w true) s' 0 1 [] = true) /\
+  (exists s', recover (cfg_w false) (crash (cfg_w false) (after (cfg_w false) init hist_w) (Delete 0 [FData; FMd 1; FBan]) 1) = Some s'
+              /\ reuse (cfg_w false) s' 0 1 [] = true).
+Proof.
+  split; [|split]; eexists; (split; [vm_compute; reflexivity|]); try split; vm_compute; reflexivity.
+Qed.
